@@ -78,8 +78,10 @@ package policer
 // A TOMBSTONE in a container with EC rules is kept on every node of every EC node list: the
 // pseudo replica rule added for the i-th EC list demands as many holders as THAT list has
 // nodes (the EC lists follow the REP lists in nn).
+// (C27 too: with a wrong demand the policers either stop before every EC node holds the
+// tombstone or never stop re-replicating.)
 //@ func (*Policer).processObject
-//@   property C26
+//@   property C26 C27
 //@   loop 1 iteration [tombstone_wanted_on_every_node_of_its_own_ec_list] newRepRules[len(repRules) + rangeindex] == uint(len(nn[len(repRules) + rangeindex]))
 
 // ---- C22 (callers of the node order): the node list a recreated EC part is replicated to
